@@ -84,6 +84,7 @@ type Contract struct {
 	MayPanic   bool
 	NoSafety   bool
 	Uninterp   bool // spec function treated as an uninterpreted function of its arguments
+	UnreachableOK string // non-empty: return sites proved unreachable are expected (reason)
 	ReliableIO  bool // file operations do not fail for environmental reasons in this function (assumption)
 	AbstractMul bool // multiplication of two non-literals is an uninterpreted function in this function's obligations (sound: weaker)
 	NoOverflow bool // math mode: arithmetic of this function is assumed not to overflow (recorded as an assumption)
@@ -355,6 +356,11 @@ func (p *Program) bind(c *Contract) error {
 			c.AbstractMul = true
 		case "reliable_io":
 			c.ReliableIO = true
+		case "unreachable_ok":
+			c.UnreachableOK = rc.text
+			if c.UnreachableOK == "" {
+				c.UnreachableOK = "some return sites are dead under the contract's preconditions"
+			}
 		case "uninterpreted":
 			c.Uninterp = true
 			c.Assumed = "uninterpreted ghost function: " + rc.text
@@ -904,4 +910,13 @@ func calleeName(call *ast.CallExpr) string {
 		return f.Sel.Name
 	}
 	return ""
+}
+
+func (cl *Clause) hasTag(t string) bool {
+	for _, x := range cl.Tags {
+		if x == t {
+			return true
+		}
+	}
+	return false
 }
